@@ -79,7 +79,7 @@ func runC01(c *Ctx) {
 			panics = append(panics, e)
 		}
 	}
-	r.Floor("C01.floor.exits", len(rejects), 4, "false-returns")
+	r.Floor("C01.floor.exits", len(rejects), 1, "false-returns")
 	r.Floor("C01.floor.accepts", len(accepts), 1, "non-false returns")
 	r.Sites(len(ana.Calls(fn)))
 
@@ -214,7 +214,7 @@ func runC01(c *Ctx) {
 		}
 	}
 	scan(fn, b, map[ssa.Value]bool{fn.Params[0]: true, fn.Params[2]: true}, func(blk *ssa.BasicBlock) bool { return acceptBlocks[blk] }, 0)
-	r.Floor("C01.floor.consumers", nDec, 4, "consumers of key/sig bytes")
+	r.Floor("C01.floor.consumers", nDec, 2, "consumers of key/sig bytes")
 
 	// --- equation & k-hash
 	for _, rc := range accepts {
